@@ -817,4 +817,126 @@ def runHist (st : Store) : List HOp → Store × List Reply
     let r := runHist (stepStore st o) os
     (r.1, match stepReply st o with | some x => x :: r.2 | none => r.2)
 
+/-! ## Wave 5: the re-indexing mechanism of `arrayed_term` as a probed fact
+
+`Operator.arrayed_term(index)` is `clone_with_index(index).term(time)`: the asked index is pushed into EVERY nested
+operator (`reindexAll = true`).  The variant that only switches `self.index` of the operand in place
+(`self.index = index; self.term(time)`) leaves the nested operators with the index they were cloned with — the
+outer result index (`reindexAll = false`).  `Ex.termC c tm x own kids` is `x.term(time)` where the operator `x`
+itself carries the index `own` and every operator below it the index `kids`. -/
+structure Cfg where
+  reindexAll : Bool
+deriving DecidableEq, Repr, Inhabited
+
+def Ex.termC (c : Cfg) (tm : Py) : Ex → Option (List Key) → Option (List Key) → Option Py
+  | .num n l, _, _ => some (numPy n l)
+  | .el e, _, _ => some (refT tm e.name [])
+  | .op (.ew o) a b, I, K =>
+    if a.arrEl || b.arrEl then
+      match I with
+      | none => some (.num "0.0")
+      | some idx =>
+        opt2 (ewTmpl o) (if a.arrEl then a.subEl tm idx else a.termC c tm K K)
+                        (if b.arrEl then b.subEl tm idx else b.termC c tm K K)
+    else opt2 (ewTmpl o) (a.termC c tm K K) (b.termC c tm K K)
+  | .op .nmul a b, I, K =>
+    if a.arrEl || b.arrEl then
+      match I with
+      | none => some (.num "0.0")
+      | some idx =>
+        opt2 prodTerm (if b.arrEl then b.subEl tm idx else b.termC c tm K K)
+                      (if a.arrEl then a.subEl tm idx else a.termC c tm K K)
+    else opt2 prodTerm (b.termC c tm K K) (a.termC c tm K K)
+  | .op .dot a b, I, K =>
+    -- `_get_sub_element_term(operand, ix)`: the operand itself gets `ix`; what is below it gets `ix` too when
+    -- the operand is re-cloned, and keeps `K` when only `self.index` is switched
+    let subA : List Key → Option Py := fun ix =>
+      match a with | .el e => e.subT tm ix | _ => a.termC c tm (some ix) (if c.reindexAll then some ix else K)
+    let subB : List Key → Option Py := fun ix =>
+      match b with | .el e => e.subT tm ix | _ => b.termC c tm (some ix) (if c.reindexAll then some ix else K)
+    match a.dims, b.dims with
+    | some d1, some d2 =>
+      (match I with
+       | none =>
+         if d1 = .val then none
+         else if d1.isVec then
+           if d2 = .val then none
+           else if d2.isVec then
+             if d1.rows = d2.rows then
+               dotChain ((List.range d1.rows).map fun k => (a.subEl tm [.i k], b.subEl tm [.i k]))
+             else none
+           else some (.num "0.0")
+         else some (.num "0.0")
+       | some idx =>
+         if d1 = .val then
+           if d2 = .val then none else opt2 prodTerm (a.termC c tm K K) (b.subEl tm idx)
+         else if d2 = .val then opt2 prodTerm (a.subEl tm idx) (b.termC c tm K K)
+         else if d1.isVec then
+           if d2.isVec then
+             if d1.rows = d2.rows then
+               dotChain ((List.range d1.rows).map fun k => (a.subEl tm [.i k], b.subEl tm [.i k]))
+             else none
+           else if d1.rows = d2.rows then
+             (match idx with
+              | j :: _ =>
+                (match keyNat j with
+                 | some jn => if jn ≥ d2.snd then none
+                              else dotChain ((List.range d2.rows).map fun k => (subA [.i k], subB [.i k, j]))
+                 | none => none)
+              | [] => none)
+           else none
+         else if d2.isVec then
+           if d1.snd = d2.rows then
+             (match idx with
+              | i :: _ =>
+                (match keyNat i with
+                 | some iN => if iN ≥ d1.rows then none
+                              else dotChain ((List.range d1.snd).map fun k => (subA [i, .i k], subB [.i k]))
+                 | none => none)
+              | [] => none)
+           else none
+         else
+           (match idx with
+            | [i, j] =>
+              (match keyNat i, keyNat j with
+               | some iN, some jN =>
+                 if iN ≥ d1.rows ∨ jN ≥ d2.snd then none
+                 else dotChain ((List.range d1.snd).map fun k => (subA [i, .i k], subB [.i k, j]))
+               | _, _ => none)
+            | _ => none))
+    | _, _ => none
+
+/-- `clone_with_index(I).term(time)` (`I = none`: the operator as built) under the probed mechanism -/
+def Ex.termI (c : Cfg) (tm : Py) (x : Ex) (I : Option (List Key)) : Option Py := x.termC c tm I I
+
+def vecEntriesC (c : Cfg) (tm : Py) (f : Form) (a b : Ex) (named : Bool) (m : Nat) : Option (List (Key × Py)) :=
+  optAll ((List.range m).map fun i =>
+    match vecIndexE f a b named i with
+    | some k => ((Ex.op f a b).termI c tm (some [k])).map fun p => (k, p)
+    | none => none)
+
+def matEntriesC (c : Cfg) (tm : Py) (x : Ex) (m n : Nat) : Option (List (List Py)) :=
+  optAll ((List.range m).map fun i => optAll ((List.range n).map fun j => x.termI c tm (some [.i i, .i j])))
+
+/-- `expandE` under the probed mechanism -/
+def expandEC (c : Cfg) (tm : Py) (x : Ex) : Option Result :=
+  match x with
+  | .op f a b =>
+    if !x.wf then none
+    else if !x.anyArr then (x.termI c tm none).map .scalar
+    else
+      match x.dims with
+      | none => none
+      | some .val => (x.termI c tm none).map .scalar
+      | some d =>
+        if d.isVec then
+          match isNamedE f a b with
+          | none => none
+          | some nm => (vecEntriesC c tm f a b nm d.rows).map (.vector nm)
+        else
+          match d with
+          | .d2 m n => (matEntriesC c tm x m n).map .matrix
+          | _ => none
+  | _ => none
+
 end Bptk.C10
